@@ -71,7 +71,8 @@ pub fn predicate(name: &str, sc: &Scenario, v: &Violation) -> bool {
             let Some(n) = &v.nonce else { return false };
             let Some((_, t)) = sc.find_test(n) else { return false };
             let ops = sc.sim.programs.get(n).cloned().unwrap_or_default();
-            let exits_early = ops.iter().any(|o| matches!(o, Op::ExitShell { .. } | Op::Die { .. }));
+            // (closing its standard input is the same to the parent: the script pipe has no reader)
+            let exits_early = ops.iter().any(|o| matches!(o, Op::ExitShell { .. } | Op::Die { .. } | Op::CloseStdin));
             let marker_end = t.expr.find("@ve:").map(|i| i + 17).unwrap_or(t.expr.len());
             let unread = t.expr.len().saturating_sub(marker_end);
             // (how much has to be left unread depends on the pipe capacity and on how far scrut got
